@@ -693,6 +693,7 @@ class Executor:
                 self.assume_log("A5: set/dict iteration order is an arbitrary duplicate-free enumeration of the keys")
                 w = View(n, lambda i: self.valid_ref(st, Val(t.k, ks[i])), t.k, distinct=True)
                 w.keys_seq = Val(Seq(t.k), ks)
+                w.member_pred = lambda z, d=d: z3.Select(d, z)
                 return w
             if isinstance(t, Opt):
                 return self.view_of(self.coerce(v, t.elt, st), st)
